@@ -37,6 +37,7 @@ type lexicalContext []lexicalScope
 // TODO: explain tags.
 func (c lexicalContext) getRegister(name Name, tags uint) (reg Register, ok bool) {
 	for i := len(c) - 1; i >= 0; i-- {
+		verifScopeVisit()
 		var tr taggedReg
 		tr, ok = c[i].reg[name]
 		if ok {
